@@ -2,5 +2,5 @@ SPECIFICATION Spec
 CONSTANTS
   Family = "resolve"
   Depth = "quick"
-INVARIANTS ResolveInvs Terminates Emit
+INVARIANTS ResolveInvs FnAgrees Terminates Emit
 CHECK_DEADLOCK FALSE
